@@ -14,10 +14,10 @@ typedef uint64_t addr_t;    /* ip::address: bit 47 set = v6, 0 = unspecified/def
 typedef uint64_t ep_t;      /* endpoint = (addr << 16) | port                 */
 typedef struct { int id; } str_t;                 /* std::string, opaque      */
 typedef struct { int len; int id; int last; } route_t;   /* route: hop count, identity of the hop sequence, identity of last hop */
-typedef struct { size_t sz; int id; const uint8_t *data; } buf_t;   /* std::vector<uint8_t>: size, identity of the byte content, data() */
+typedef struct { size_t sz; int id; const uint8_t *data; size_t src_next; int src_bad; } buf_t;   /* std::vector<uint8_t>: size, identity of the byte content, data() */
 #define bufsz buffer.sz
 #define ROUTE_EMPTY ((route_t){0, 0, 0})
-#define BUF_EMPTY ((buf_t){0, 0, (const uint8_t *)0})
+#define BUF_EMPTY ((buf_t){0, 0, (const uint8_t *)0, 0, 0})
 
 #define ADDR_V6_BIT ((addr_t)1 << 47)
 #define ADDR_NONE ((addr_t)0)
